@@ -382,7 +382,7 @@ func (i *ICMPv6NeighborAdvertisement) SerializeTo(b gopacket.SerializeBuffer, op
 	}
 
 	buf[0] = byte(i.Flags)
-	copy(buf[1:], lotsOfZeros[:3])
+	copy(buf[1:], lotsOfZeros[:19])
 	copy(buf[4:], i.TargetAddress)
 	return nil
 }
